@@ -248,7 +248,8 @@ func (g *Gen) tryReplay(r *OblResult, rf *ReplayFile, repo, dir string) string {
 	if err != nil {
 		return "not-replayable"
 	}
-	script := Script(append(append([]*Term{}, fg.assumes...), Not(v)), nil, nil, nil)
+	rasserts := append(append([]*Term{}, fg.assumes...), Not(v))
+	script := ScriptD(rasserts, nil, defsUsed(fg.defs, rasserts))
 	wd, _ := os.MkdirTemp("", "govc-replay-")
 	defer os.RemoveAll(wd)
 	sr := Solve(script, wd, "replay", 20, false)
